@@ -37,6 +37,7 @@ import (
 	"time"
 
 	"github.com/containerd/stargz-snapshotter/estargz"
+	"github.com/containerd/stargz-snapshotter/estargz/zstdchunked"
 )
 
 type C05Ent struct {
@@ -75,7 +76,21 @@ func c05Spell(p, sp string, isDir bool) string {
 		return "./"
 	}
 	rel := strings.TrimPrefix(p, "/")
+	dir, base := "", rel
+	if i := strings.LastIndex(rel, "/"); i >= 0 {
+		dir, base = rel[:i], rel[i+1:]
+	}
 	switch sp {
+	case "tdot": // trailing dot element
+		return rel + "/."
+	case "tdotdot": // trailing dot-dot element
+		return rel + "/zz/.."
+	case "idot": // inner dot element (paths of two or more elements)
+		return dir + "/./" + base
+	case "dslash":
+		return dir + "//" + base
+	case "updown":
+		return rel + "/../" + base
 	case "dot":
 		return "./" + rel
 	case "dotdot":
@@ -86,7 +101,41 @@ func c05Spell(p, sp string, isDir bool) string {
 	return rel
 }
 
-func c05ByteOf(i, j int) byte { return byte(97 + (i-1)*4 + j) }
+func c05ByteOf(i, j int) byte { return byte(97 + (i-1)*4 + j%23) }
+
+// c05Probes lists the offsets at which a file is probed (same rule as ProbeSeq in Toc.tla).
+func c05Probes(sz int64) []int64 {
+	var res []int64
+	if sz <= 64 {
+		for o := int64(0); o <= sz; o++ {
+			res = append(res, o)
+		}
+		return res
+	}
+	step := sz / 20
+	for k := int64(0); k <= 20; k++ {
+		hi := k*step + step - 1
+		if hi > sz {
+			hi = sz
+		}
+		res = append(res, k*step, hi)
+	}
+	return append(res, sz)
+}
+
+func c05Many(lay string) (chunkLen, count int) {
+	switch lay {
+	case "m3":
+		return 40, 3
+	case "m10":
+		return 40, 10
+	case "m12":
+		return 40, 12
+	case "m9k":
+		return 2100, 9
+	}
+	return 0, 0
+}
 
 func c05Digest(b []byte) string { return fmt.Sprintf("sha256:%x", sha256.Sum256(b)) }
 
@@ -196,6 +245,19 @@ func C05Build(c C05Case) *C05Blob {
 				chunks = append(chunks, chunk{te, len(streams) - 1}, chunk{ce, len(streams)})
 			}
 			entries = append(entries, ce)
+		case "m3", "m10", "m12", "m9k": // many chunks, each in its own stream
+			cl, cnt := c05Many(e.Lay)
+			te.ChunkSize = int64(cl)
+			setCD(te, data[:cl], fmt.Sprintf("C%d.1", i))
+			streams = append(streams, data[:cl])
+			chunks = append(chunks, chunk{te, len(streams)})
+			for k := 1; k < cnt; k++ {
+				ce := &estargz.TOCEntry{Name: te.Name, Type: "chunk", ChunkOffset: int64(k * cl), ChunkSize: int64(cl)}
+				setCD(ce, data[k*cl:(k+1)*cl], fmt.Sprintf("C%d.%d", i, k+1))
+				streams = append(streams, data[k*cl:(k+1)*cl])
+				chunks = append(chunks, chunk{ce, len(streams)})
+				entries = append(entries, ce)
+			}
 		default: // share: appended to the last stream
 			n := len(streams)
 			te.InnerOffset = int64(len(streams[n-1]))
@@ -441,10 +503,11 @@ func C05Walk(r Reader, b *C05Blob) (obs *C05Obs) {
 			continue
 		}
 		n.Of = "ok"
-		if n.Ty != "reg" || attr.Size > 64 || attr.Size < 0 {
+		if n.Ty != "reg" || attr.Size > 1<<20 || attr.Size < 0 {
 			continue
 		}
-		for o := int64(0); o <= attr.Size; o++ {
+		probes := c05Probes(attr.Size)
+		for _, o := range probes {
 			co, cs, dg, ok := f.ChunkEntryForOffset(o)
 			if !ok {
 				n.Ck = append(n.Ck, c05Ck{})
@@ -453,8 +516,10 @@ func C05Walk(r Reader, b *C05Blob) (obs *C05Obs) {
 			}
 		}
 		one := make([]byte, 1)
-		for o := int64(0); o < attr.Size; o++ {
-			if nn, err := f.ReadAt(one, o); err != nil || nn != 1 {
+		for _, o := range probes {
+			if o >= attr.Size {
+				n.Rd = append(n.Rd, -2)
+			} else if nn, err := f.ReadAt(one, o); err != nil || nn != 1 {
 				n.Rd = append(n.Rd, -1)
 			} else {
 				n.Rd = append(n.Rd, int(one[0]))
@@ -483,8 +548,10 @@ func C05Walk(r Reader, b *C05Blob) (obs *C05Obs) {
 			n.Prd = []int{-2}
 			continue
 		}
-		for o := int64(0); o < attr.Size; o++ {
-			if nn, err := pf.ReadAt(one, o); err != nil || nn != 1 {
+		for _, o := range probes {
+			if o >= attr.Size {
+				n.Prd = append(n.Prd, -2)
+			} else if nn, err := pf.ReadAt(one, o); err != nil || nn != 1 {
 				n.Prd = append(n.Prd, -1)
 			} else {
 				n.Prd = append(n.Prd, int(one[0]))
@@ -615,6 +682,7 @@ type C04Blob struct {
 	Blob   string   `json:"blob"`
 	TocOpt int64    `json:"tocopt"`
 	Names  []string `json:"names"`
+	Zstd   bool     `json:"zstd"`
 }
 
 type c04Rec struct {
@@ -796,6 +864,22 @@ func C04Child(storeName string, store Store, extra func(rec *C04Recorder, r Read
 			r = rr
 			return nil
 		})
+		if b.Zstd {
+			// footer case: once more with the decompressors fs/layer registers for every layer (zstd:chunked)
+			rec.Run("open+zstd", func() error {
+				opts := []Option{WithDecompressors(new(zstdchunked.Decompressor))}
+				if b.TocOpt != 0 {
+					opts = append(opts, WithTOCOffset(b.TocOpt))
+				}
+				rr, err := store(io.NewSectionReader(bytes.NewReader(data), 0, int64(len(data))), opts...)
+				if err != nil {
+					return err
+				}
+				err = rr.ForeachChild(rr.RootID(), func(string, uint32, os.FileMode) bool { return false })
+				rr.Close()
+				return err
+			})
+		}
 		if r != nil {
 			rec.Run(storeName+".walk+read", func() error { return c04Walk(r) })
 			if extra != nil {
